@@ -129,16 +129,17 @@ def install_activation_tap():
 
     orig = Multidecoder.scan_node
 
-    def scan_node(self, node, depth_limit=DEFAULT_DEPTH_LIMIT):
+    def scan_node(self, node, depth_limit=DEFAULT_DEPTH_LIMIT, *args, **kwargs):
+        # transparent to extra parameters a refactored engine may pass along its own recursion
         tap = getattr(_local, "tap", None)
         if tap is None or tap.md is not self:
-            return orig(self, node, depth_limit)
+            return orig(self, node, depth_limit, *args, **kwargs)
         parent = tap.stack[-1] if tap.stack else None
         act = Activation(len(tap.acts), parent, node, depth_limit, len(tap.stack))
         tap.acts.append(act)
         tap.stack.append(act)
         try:
-            return orig(self, node, depth_limit)
+            return orig(self, node, depth_limit, *args, **kwargs)
         finally:
             tap.stack.pop()
 
